@@ -23,6 +23,7 @@ PROP_FILE = "Properties_C05.v"
 SEP = "\x1f"
 KEY_PONDERHIT = "script:ponderhit-before-engine"
 KEY_F8 = "script:go-ponder-depth+ponderhit-unlimited"
+KEY_GARBLE = "race:stdout-interleave-uci-thread-vs-search-thread"
 
 # ------------------------------------------------------------------------------------------
 # positions with LEGAL move lists (the property quantifies over legal move lists only)
@@ -807,7 +808,7 @@ def run(ctx):
                        "mutex/condition variable/atomic<bool> behave as specified (one critical section = one step)",
                        "outside the model: memory errors inside the search, OS scheduling latency, character-level "
                        "interleaving of output lines written by two threads"]
-    ok, info = coqbuild.prove(ctx, PROP_FILE, timeout=ctx.scale(1500, 3600))
+    ok, info = coqbuild.prove(ctx, PROP_FILE, extra_targets=["Ctl/CtlExamples.vo"], timeout=ctx.scale(1500, 3600))
     proof_broken = not ok
     exe = cbuild.build_engine(net_kind="material", net_seed=1)
     ml_exe = coqbuild.extract("ExtractCtl.v", "ctl_driver.ml", "ctl_driver")
@@ -866,7 +867,7 @@ def run(ctx):
     verdicts = check_traces(ml_exe, [trace_line(g, r) for r in results])
     ctx.log("traces checked against the extracted LTS")
 
-    rejected, failed, known_crash = [], [], 0
+    rejected, failed, known_crash, garbled_runs = [], [], 0, []
     max_lat = 0.0
     for (cls, steps), res, v in zip(scripts, results, verdicts):
         ctx.evaluated()
@@ -886,6 +887,7 @@ def run(ctx):
                 ctx.count("delay_sleep")
             elif s[0] == "send" and s[2].get("kind") == "setoption" and s[2].get("option"):
                 ctx.count("setoption_valid" if s[2].get("valid") else "setoption_invalid")
+                ctx.nontrivial("opt:%s:%s" % (s[2]["option"], bool(s[2].get("valid"))))
         # commands sent while a go is outstanding
         n_go = n_bm = during = 0
         for e in res["events"]:
@@ -901,19 +903,30 @@ def run(ctx):
         if n_go >= 1 and during >= 1:
             ctx.nontrivial("\n".join(e[1] for e in sends))
         max_lat = max(max_lat, res["exit_latency"]) if not res["hang"] else max_lat
-        fails = contract_check(steps, res)
+        fails, garbled = contract_check(steps, res)
         if res["rc"] < 0 and ponderhit_before_engine(res):
             known_crash += 1
             fails = [f for f in fails if not f.startswith("killed by signal")]
             ctx.count("crash_ponderhit_before_engine")
         if fails:
             failed.append((cls, steps, res, v, fails))
-        if not v.startswith("ok"):
+        if garbled:
+            # lines of two threads mixed: the run cannot be canonicalised (known finding)
+            ctx.count("garbled_runs_excluded_from_trace_inclusion")
+            garbled_runs.append((cls, steps, res))
+        elif not v.startswith("ok"):
             rejected.append((cls, steps, res, v))
         else:
             ctx.traces_validated += 1
         ctx.sample({"class": cls, "script": script_text(steps)[:25], "rc": res["rc"], "model": parts[0],
                     "events": len(res["events"])}, limit=5)
+    if garbled_runs:
+        cls, steps, res = garbled_runs[0]
+        bad_lines = [e[2] for e in res["events"] if e[0] == "out" and e[1] == "other"][:6]
+        ctx.violation("malformed output: lines of the UCI thread and of the search thread are mixed character-wise "
+                      "(std::cout written by two threads without a lock); %d of %d runs affected" % (len(garbled_runs), len(scripts)),
+                      {"class": cls, "script": script_text(steps), "steps": steps_to_json(steps), "malformed_lines": bad_lines,
+                       "note": "race: replay may need several attempts"}, key=KEY_GARBLE)
     ctx.notes["max_exit_latency_s"] = round(max_lat, 2)
     ctx.notes["model_variant_used"] = "ponderhit_guarded=%s" % g
     ctx.log("rejected traces: %d, contract failures: %d, known-crash scripts: %d, max exit latency %.2fs" %
@@ -931,6 +944,7 @@ def run(ctx):
     reported = 0
     for cls, steps, res, v, fails in failed[:3]:
         what0 = fails[0]
+        ctx.log("contract failure (%s): %s" % (cls, "; ".join(fails[:3])))
 
         def pred(r, vv, f, what0=what0):
             return any(x.split(" (")[0][:25] == what0.split(" (")[0][:25] for x in f)
@@ -949,6 +963,7 @@ def run(ctx):
         if id(steps) in failed_ids:
             continue
         idx = int(v.split()[1])
+        ctx.log("trace rejected by the LTS (%s) at event %d" % (cls, idx))
         small = shrink(exe, ml_exe, g, steps, lambda r, vv, f: not vv.startswith("ok"), budget=ctx.scale(30, 120))
         r2, v2, f2 = evaluate(exe, ml_exe, g, small)
         use = small if not v2.startswith("ok") else steps
@@ -978,6 +993,6 @@ def replay(ctx, body):
     print("exit status:", res["rc"], "hang:", res["hang"])
     for gg in (False, True):
         print("model ponderhit_guarded=%s:" % gg, check_traces(ml_exe, [trace_line(gg, res)])[0])
-    print("contract failures:", contract_check(steps, res))
+    print("contract failures / garbled:", contract_check(steps, res))
     for e in res["events"][:200]:
         print("   ", e)
